@@ -164,6 +164,11 @@ Section Vec.
     tsum (map face_vol_fan faces) / of_Z O 6.
   Definition polyhedron_vol_centroid (faces : list (list (v3 T))) : T :=
     tsum (map face_vol_centroid faces) / of_Z O 6.
+  (* local origin of the polyhedron cores: the first node of the first face *)
+  Definition faces_origin (faces : list (list (v3 T))) : v3 T :=
+    match faces with (p :: _) :: _ => p | _ => vzero end.
+  Definition shift_faces_if (b : bool) (faces : list (list (v3 T))) : list (list (v3 T)) :=
+    if b then map (map (fun p => vsub p (faces_origin faces))) faces else faces.
 End Vec.
 
 Arguments vzero {T} O. Arguments vadd {T} O a b. Arguments vsub {T} O a b.
@@ -184,6 +189,7 @@ Arguments polygon_cross_fan {T} O pts. Arguments polygon_cross_centroid {T} O pt
 Arguments face_fan {T} O f0 rest. Arguments face_vol_fan {T} O f.
 Arguments face_vol_centroid {T} O f. Arguments tsum {T} O l.
 Arguments polyhedron_vol_fan {T} O faces. Arguments polyhedron_vol_centroid {T} O faces.
+Arguments faces_origin {T} O faces. Arguments shift_faces_if {T} O b faces.
 
 (* -------------------------------------------------- id -> position lookup
    FEMData.dict_node_id2index = {id: storage index}; collect_node_positions_by_ids
